@@ -45,7 +45,10 @@ Inductive op :=
 | UpdateConfig (who : nat) (new_owner : option nat) (new_fees : option fees) (toggles : option (bool * bool * bool))
         (* toggles = (withdrawals, deposits, swaps) *)
 | Donate (i : bool) (z : Z)
-| TransferLP (from to : nat) (a : Z).
+| TransferLP (from to : nat) (a : Z)
+| WithdrawDirect (who : nat) (denom : nat) (a : Z).
+        (* ExecuteMsg::WithdrawLiquidity {} with `a` coins of some native denom attached: meant for token-factory LP
+           tokens only; with a cw20 LP token (default build) the expected denom is "" and every call is rejected *)
 
 (* what a successful step pays out, for observation and for the theorems *)
 Record payout := mkPay {
@@ -209,6 +212,7 @@ Definition op_wf (o : op) : bool :=
   | UpdateConfig _ _ f _ => match f with Some f => fits128 (f_protocol f) && fits128 (f_swap f) && fits128 (f_burn f) | None => true end
   | Donate _ z => fits128 z
   | TransferLP _ _ a => fits128 a
+  | WithdrawDirect _ _ a => fits128 a
   end.
 
 Definition step (k : consts) (s : pstate) (o : op) : outcome (pstate * payout) :=
@@ -221,6 +225,7 @@ Definition step (k : consts) (s : pstate) (o : op) : outcome (pstate * payout) :
   | UpdateConfig who o f t => update_config s who o f t
   | Donate i z => donate s i z
   | TransferLP f t a => transfer_lp s f t a
+  | WithdrawDirect _ _ _ => Err E_OTHER              (* AssetMismatch *)
   end.
 
 (* transactional semantics: a failed operation leaves the state untouched *)
